@@ -5,6 +5,7 @@
   itself leaves a residue in `st'`, exactly as the Python object graph does.
 -/
 import PS.Model.Encode
+import PS.Model.Indicator
 namespace PS
 
 inductive ResRef where
@@ -57,6 +58,37 @@ inductive CDecl where
   | indicatorBounds (i : Nat) (lo hi : Option Int)
   deriving Inhabited
 
+/-- indicator constructor calls -/
+inductive IDecl where
+  | expr (name : String) (t : Term) (bounds : Option (Int × Int))
+  | utilization (res : String)
+  | nbTasksAssigned (res : String)
+  | tardiness (ts : Option (List String))
+  | earliness (ts : Option (List String))
+  | nbTardy (ts : Option (List String))
+  | maxLateness (ts : Option (List String))
+  | resourceCost (rs : List String)
+  | idle (res : String)
+  | maxBuffer (b : String)
+  | minBuffer (b : String)
+  deriving Inhabited
+
+/-- objective constructor calls -/
+inductive ODecl where
+  | maximizeIndicator (i : Nat) (weight : Int)
+  | minimizeIndicator (i : Nat) (weight : Int)
+  | makespan
+  | flowtime (ts : Option (List String))
+  | priorities
+  | startLatest (ts : Option (List String))
+  | startEarliest
+  | greatestStart (ts : Option (List String))
+  | resourceUtilization (res : String)
+  | resourceCost (rs : List String)
+  | maximizeMaxBuffer (b : String)
+  | minimizeMaxBuffer (b : String)
+  deriving Inhabited
+
 /-- the public constructor calls -/
 inductive Decl where
   | problem (name : String) (horizon : Option Int)
@@ -68,6 +100,8 @@ inductive Decl where
   | require (task : String) (res : ResRef) (dynamic : Bool) (delayIn earlyOut : Int)
   | constr (name : Option String) (optional : Bool) (c : CDecl)
   | buffer (name : String) (concurrent : Bool) (initial final lb ub : Option Int)
+  | indicator (d : IDecl)
+  | objective (d : ODecl)
   deriving Inhabited
 
 abbrev Res := State × Option Err
@@ -364,6 +398,143 @@ def stepBuffer (st : State) (name : String) (concurrent : Bool) (initial final l
   else if st.buffers.any (·.name == name) then fail st .value
   else ok { st with buffers := st.buffers ++ [{ name, concurrent, initial, final, lb, ub }] }
 
+/-! ### indicators (indicator.py) -/
+
+/-- busy intervals an indicator reads from `resource._busy_intervals` (a cumulative worker's own
+    table is empty) -/
+def State.ownBusy (st : State) (res : String) : Option (List BusyRef) :=
+  match st.findWorker res with
+  | some _ => some (st.busyRefs res)
+  | none => match st.findCumul res with
+    | some _ => some []
+    | none => none
+
+def State.tasksOrAll (st : State) : Option (List String) → Option (List Task)
+  | none => some st.tasks
+  | some ns => st.tasksNamed ns
+
+/-- (cost function, busy intervals) of a worker, or of each unit of a cumulative worker -/
+def State.costItems (st : State) (r : String) : Option (List (Cost × List BusyRef)) :=
+  match st.findWorker r with
+  | some w => some [(w.cost, st.busyRefs r)]
+  | none => (st.findCumul r).map (fun (cw : Cumul) => cw.units.filterMap (fun u =>
+      (st.findWorker u).map (fun (w : Worker) => (w.cost, st.busyRefs u))))
+
+def joinNames (ns : List String) : String := ",".intercalate ns
+
+/-- (class name, reported name, body) -/
+def State.resolveI (st : State) : IDecl → Option (String × Option String × String × Option (Int × Int) × IBody)
+  | .expr name t bounds => some ("IndicatorFromMathExpression", some name, name, bounds, .expr t [])
+  | .utilization res => (st.ownBusy res).map (fun b =>
+      ("IndicatorResourceUtilization", none, "Utilization (" ++ res ++ ")", some (0, 100), .utilization b st.horizon))
+  | .nbTasksAssigned res => (st.ownBusy res).map (fun b =>
+      ("IndicatorNumberTasksAssigned", none, "Nb Tasks Assigned (" ++ res ++ ")", none, .nbTasksAssigned b))
+  | .tardiness ts => (st.tasksOrAll ts).map (fun l =>
+      ("IndicatorTardiness", none, (match ts with | none => "Total tardiness" | some ns => "Tardiness(" ++ joinNames ns ++ ")"),
+       none, .tardiness l))
+  | .earliness ts => (st.tasksOrAll ts).map (fun l =>
+      ("IndicatorEarliness", none, (match ts with | none => "Total earliness" | some ns => "Earliness(" ++ joinNames ns ++ ")"),
+       none, .earliness l))
+  | .nbTardy ts => (st.tasksOrAll ts).map (fun l =>
+      ("IndicatorNumberOfTardyTasks", none,
+       (match ts with | none => "Total tardiness" | some ns => "NumberOfTardyTasks(" ++ joinNames ns ++ ")"), none, .nbTardy l))
+  | .maxLateness ts => (st.tasksOrAll ts).map (fun l =>
+      ("IndicatorMaximumLateness", none,
+       (match ts with | none => "MaximumLateness" | some ns => "MaximumLateness(" ++ joinNames ns ++ ")"), none, .maxLateness l))
+  | .resourceCost rs =>
+      (rs.mapM (st.costItems)).map (fun (items : List (List (Cost × List BusyRef))) =>
+      ("IndicatorResourceCost", none, "Total Cost (" ++ joinNames rs ++ ")", none, .resourceCost (List.flatten items)))
+  | .idle res => (st.ownBusy res).map (fun b => ("IndicatorResourceIdle", none, "ResourceIdle" ++ res, none, .idle b))
+  | .maxBuffer b => (st.findBuffer b).map (fun bf =>
+      ("IndicatorMaxBufferLevel", none, "MaximizeBuffer" ++ b ++ "Level", none, .maxBuffer (bufLevelVars st bf)))
+  | .minBuffer b => (st.findBuffer b).map (fun bf =>
+      ("IndicatorMinBufferLevel", none, "Mini " ++ b ++ " level", none, .minBuffer (bufLevelVars st bf)))
+
+/-- register an indicator; `key` is the name it is registered under (`none` = auto-generated) -/
+def State.addIndicator (st : State) (cls : String) (key : Option String) (name : String)
+    (bounds : Option (Int × Int)) (body : IBody) : Res :=
+  if !st.active then fail st .attribute
+  else if key.isSome && st.indicators.any (·.key == key) then fail st .value
+  else
+    let id := st.indicators.length
+    let v : IVar := match key with | some k => .ind k | none => .indAuto cls id
+    let ind : Indicator := { id, key, name, var := v, bounds, body }
+    match firstDup [] ind.asserts 0 with
+    | none => ok { st with indicators := st.indicators ++ [ind] }
+    | some k => fail { st with indicators := st.indicators ++ [{ ind with body := .partial_ (ind.asserts.take k) }] } .assertion
+
+def stepIndicator (st : State) (d : IDecl) : Res :=
+  match st.resolveI d with
+  | none => fail st .validation
+  | some (cls, key, name, bounds, body) => st.addIndicator cls key name bounds body
+
+/-! ### objectives (objective.py) -/
+
+def State.addObjective (st : State) (name : String) (target : Term) (bounds : Option (Int × Int))
+    (weight : Int) (maximize : Bool) : Res :=
+  if !st.active then fail st .attribute
+  else if st.objectives.any (·.name == name) then fail st .value
+  else ok { st with objectives := st.objectives ++ [{ name, target, bounds, weight, maximize }] }
+
+/-- helper: create the indicator, then the objective over it -/
+def State.indThenObj (st : State) (cls : String) (key : Option String) (iname : String)
+    (bounds : Option (Int × Int)) (body : IBody) (oname : String) (maximize : Bool) : Res :=
+  match st.addIndicator cls key iname bounds body with
+  | (st', none) =>
+      match st'.indicators.getLast? with
+      | some ind => st'.addObjective oname (.var ind.var) ind.bounds 1 maximize
+      | none => fail st' .other
+  | r => r
+
+def schedTimes (f : Task → Term) (ts : List Task) : List Term :=
+  ts.map (fun t => if t.optional then Term.ite (.bvar (.sched t.name)) (f t) (numT 0) else f t)
+
+def stepObjective (st : State) : ODecl → Res
+  | .maximizeIndicator i w => match st.findIndicator i with
+      | some ind => st.addObjective ("Maximize" ++ ind.name) (.var ind.var) ind.bounds w true
+      | none => fail st .validation
+  | .minimizeIndicator i w => match st.findIndicator i with
+      | some ind => st.addObjective ("Minimize" ++ ind.name) (.var ind.var) ind.bounds w false
+      | none => fail st .validation
+  | .makespan => if !st.active then fail st .attribute else st.addObjective "MinimizeMakeSpan" (.var .horizon) none 1 false
+  | .flowtime ts => match st.tasksOrAll ts with
+      | some l => st.indThenObj "IndicatorFromMathExpression" (some "Flowtime") "Flowtime" none
+          (.expr (sumOrZero (schedTimes (·.eVar) l)) []) "MinimizeFlowtime" false
+      | none => fail st .validation
+  | .priorities =>
+      st.indThenObj "IndicatorFromMathExpression" (some "TotalPriority") "TotalPriority" none
+        (.expr (sumOrZero (schedTimes (fun t => .mul t.eVar (numT t.prio)) st.tasks)) []) "MinimizePriority" false
+  | .startEarliest =>
+      st.indThenObj "IndicatorFromMathExpression" (some "WeightedStartTimes") "WeightedStartTimes" none
+        (.expr (sumOrZero (schedTimes (fun t => .mul t.sVar (numT t.prio)) st.tasks)) []) "MinimizeWeightedStartTimes" false
+  | .startLatest ts => match st.tasksOrAll ts with
+      | some l =>
+          let v := Term.var (.named "SmallestStartTimeVar")
+          if l.isEmpty then fail st .assertion else
+          st.indThenObj "IndicatorFromMathExpression" (some "MinimumStartTime") "MinimumStartTime" none
+            (.expr v (getMinimum v (l.map (·.sVar)))) "MaximizeStartLatest" true
+      | none => fail st .validation
+  | .greatestStart ts => match st.tasksOrAll ts with
+      | some l =>
+          let v := Term.var (.named "GreatestStartTime")
+          if l.isEmpty then fail st .assertion else
+          st.indThenObj "IndicatorFromMathExpression" (some "GreatestStartTime") "GreatestStartTime" none
+            (.expr v (getMaximum v (l.map (·.sVar)))) "MinimizeGreatestStartTime" false
+      | none => fail st .validation
+  | .resourceUtilization res => match st.resolveI (.utilization res) with
+      | some (cls, key, name, bounds, body) => st.indThenObj cls key name bounds body "MaximizeResourceUtilization" true
+      | none => fail st .validation
+  | .resourceCost rs => match st.resolveI (.resourceCost rs) with
+      | some (cls, key, name, bounds, body) =>
+          st.indThenObj cls key name bounds body ("MinimizeResourceCost" ++ "".intercalate rs) false
+      | none => fail st .validation
+  | .maximizeMaxBuffer b => match st.resolveI (.maxBuffer b) with
+      | some (cls, key, name, bounds, body) => st.indThenObj cls key name bounds body "MaximizeBufferLevel" true
+      | none => fail st .validation
+  | .minimizeMaxBuffer b => match st.resolveI (.maxBuffer b) with
+      | some (cls, key, name, bounds, body) => st.indThenObj cls key name bounds body "MinimizeBufferLevel" false
+      | none => fail st .validation
+
 def step (st : State) : Decl → Res
   | .problem name horizon => stepProblem st name horizon
   | .task name kind optional work release due deadline prio =>
@@ -374,6 +545,8 @@ def step (st : State) : Decl → Res
   | .require task res dynamic delayIn earlyOut => stepRequire st task res dynamic delayIn earlyOut
   | .constr name optional c => stepConstr st name optional c
   | .buffer name conc i f lb ub => stepBuffer st name conc i f lb ub
+  | .indicator d => stepIndicator st d
+  | .objective d => stepObjective st d
 
 /-- run a whole script, continuing after errors (as an interactive Python session would) -/
 def run (ds : List Decl) : State := ds.foldl (fun st d => (step st d).1) {}
